@@ -192,7 +192,9 @@ func main() {
 		vh.Fatal("%v", err)
 	}
 	defer os.RemoveAll(dir)
-	vnet.ResolveHook = func(network, host string) (*net.IPAddr, error) { return &net.IPAddr{IP: net.ParseIP("93.184.216.34")}, nil }
+	vnet.ResolveHook = func(network, host string) (*net.IPAddr, error) {
+		return &net.IPAddr{IP: net.ParseIP("93.184.216.34")}, nil
+	}
 	e := venum.New(fmt.Sprintf("config:shard%d/%d", a.ShardI, a.ShardN), a)
 	sa, sb := writeFile("subnets_a.toml", subnetsA), writeFile("subnets_b.toml", subnetsB)
 	sMal := writeFile("subnets_malformed.toml", "[Networks\n  broken = ")
@@ -240,11 +242,17 @@ func main() {
 	malConf2 := writeFile("malformed2.toml", "enable_v6 = true\ncovert_blocklist_public_addrs = true\ncovert_blocklist_subnets = [\"172.16.0.0/12\"]\nphantom_blocklist = [\"198.18.0.0/33\"]\n")
 	synConf := writeFile("syntax.toml", "enable_v6 = [true\n")
 	goneConf := filepath.Join(dir, "no-such-config.toml")
-	type reloadStep struct{ name, conf, subnets string }
+	// the lists of otherConf plus GeoIP database paths that cannot be opened: the configuration loads, OnReload gives up
+	// at the GeoIP step; the address policies must then be entirely the new or entirely the previous ones
+	geoConf := writeFile("other-geoip-broken.toml", "enable_v6 = true\ncovert_blocklist_subnets = [\"172.16.0.0/12\", \"::1/128\"]\ncovert_blocklist_domains = [\"^intra\\\\.corp$\"]\nphantom_blocklist = [\"198.18.0.0/16\"]\ngeoip_cc_db_path = \""+garbage+"\"\ngeoip_asn_db_path = \""+filepath.Join(dir, "missing.mmdb")+"\"\n")
+	type reloadStep struct {
+		name, conf, subnets string
+		equiv               string // configuration with the same lists that a fresh start accepts ("" = conf itself)
+	}
 	var steps []reloadStep
-	for _, c := range [][2]string{{"conf-valid", otherConf}, {"conf-malformed", malConf}, {"conf-malformed-pubaddrs", malConf2}, {"conf-syntax", synConf}, {"conf-unreadable", goneConf}} {
+	for _, c := range [][3]string{{"conf-valid", otherConf, ""}, {"conf-malformed", malConf, ""}, {"conf-malformed-pubaddrs", malConf2, ""}, {"conf-syntax", synConf, ""}, {"conf-unreadable", goneConf, ""}, {"conf-valid-geoip-unopenable", geoConf, otherConf}} {
 		for _, s := range [][2]string{{"subnets-valid", sb}, {"subnets-malformed", sMal}, {"subnets-unreadable", sGone}} {
-			steps = append(steps, reloadStep{c[0] + "+" + s[0], c[1], s[1]})
+			steps = append(steps, reloadStep{c[0] + "+" + s[0], c[1], s[1], c[2]})
 		}
 	}
 	caseNo := 0
@@ -319,11 +327,20 @@ func main() {
 					subLoaded := confLoaded && strings.HasPrefix(st.name[strings.Index(st.name, "+")+1:], "subnets-valid")
 					if confLoaded {
 						curConf = st.conf
+						if st.equiv != "" {
+							curConf = st.equiv
+						}
 					}
 					if subLoaded {
 						curSub = st.subnets
 					}
 					afterP, afterS := policyVector(m2), selectorVector(m2)
+					if confLoaded && st.equiv != "" && afterP != beforeP {
+						// the reload stopped part-way (by design: an unopenable GeoIP database): all-new or all-previous
+						if _, fresh, err := load(st.equiv, curSub); err == nil && policyVector(fresh) != afterP {
+							e.Violation("reload-replaced-policies-partially", fmt.Sprintf("%s: policy decisions %s -> %s; the new lists alone give %s", sid, beforeP, afterP, policyVector(fresh)), map[string]any{"case": sid})
+						}
+					}
 					if !confLoaded && afterP != beforeP {
 						e.Violation("failed-reload-changed-policies", fmt.Sprintf("%s: policy decisions %s -> %s although the configuration did not load", sid, beforeP, afterP), map[string]any{"case": sid})
 					}
